@@ -220,8 +220,15 @@ def run_case(c):
         b = S.to_bytes(t)
         r = S.from_bytes(t, b)
         raw = S.msgpack_restore(S.msgpack_serialize(S.to_state_dict(t)))
-        return {'bytes': b.hex() if c.get('want_bytes') else None, 'nbytes': len(b), 'restored': strip_kind(canon(r)),
-                'raw_restored': strip_kind(canon(raw))}
+        out = {'bytes': b.hex() if c.get('want_bytes') else None, 'nbytes': len(b), 'restored': strip_kind(canon(r)),
+               'raw_restored': strip_kind(canon(raw))}
+        if c.get('want_bytes'):
+          # the decoding half on its own: msgpack_restore of the real bytes, of strict prefixes and with a trailing byte
+          out['restore_of_bytes'] = canon(S.msgpack_restore(b))
+          ks = sorted(set([0, 1, len(b) // 3, len(b) // 2, len(b) - 1]) - {len(b)})
+          out['prefix'] = [[k, _raises(lambda k=k: S.msgpack_restore(b[:k]))] for k in ks if k >= 0]
+          out['extra'] = _raises(lambda: S.msgpack_restore(b + bytes([0xc0])))
+        return out
       o['by_threshold'][str(th)] = _try(go)
   finally:
     S.MAX_CHUNK_SIZE = saved
@@ -253,6 +260,14 @@ def run_case(c):
       res['sd'] = canon(sdm)
       o['mut'].append(res)
   return o
+
+
+def _raises(fn):
+  try:
+    fn()
+    return False
+  except Exception:  # pylint: disable=broad-except
+    return True
 
 
 def _try(fn):
